@@ -493,7 +493,9 @@ func (ms *MidState) reviseFileContractElement(fce types.FileContractElement, rev
 
 func (ms *MidState) resolveFileContractElement(fce types.FileContractElement, valid bool, txid types.TransactionID) {
 	fced := ms.recordFileContractElement(fce.ID)
-	fced.FileContractElement = fce.Copy()
+	if !fced.Created && fced.Revision == nil {
+		fced.FileContractElement = fce.Copy()
+	}
 	fced.Resolved = true
 	fced.Valid = valid
 	ms.spends[fce.ID] = txid
